@@ -23,7 +23,7 @@ SESSIONS = {"quick": 160, "thorough": 4000}
 BUDGET_S = {"quick": 80, "thorough": 1500}
 CAP_S = {"quick": 240, "thorough": 480}
 STAGES = ("logical", "simplified-logical", "tuned-logical", "physical", "simplified-physical", "fused")
-RULE = ("one session = one generated recipe; every target x 6 optimizer stages is lowered, its graph checked by the simulated "
+RULE = ("one session = one generated recipe; every target x 6 optimizer stages (+ the fused plan taken up again under one more partitionwise op: nested fused groups) is lowered, its graph checked by the simulated "
         "scheduler's admission (outputs, closure incl. fused sub-graphs, cycles, key ambiguity, pickling with planner objects forbidden) "
         "and executed on a multi-worker simulated cluster with pickled transfer; distinct = distinct recipe digest; "
         "non-trivial = at least one stage graph with > 2 tasks passed admission and was executed")
@@ -80,6 +80,10 @@ def execute(spec):
         ses.close()
 
 
+def _first_of(part, side):
+    return part.copy()
+
+
 def _concat(parts):
     if isinstance(parts, list) and parts and isinstance(parts[0], (pd.DataFrame, pd.Series)):
         return pd.concat(parts) if len(parts) > 1 else parts[0]
@@ -91,7 +95,9 @@ def _concat(parts):
 
 
 def _execute(spec, ses):
-    from dask_expr._expr import optimize_until
+    from dask.utils import M
+    from dask_expr import from_pandas, new_collection
+    from dask_expr._expr import Fused, optimize_until
 
     recipe = spec["recipe"]
     pool = W.build(recipe, use_knobs=True)
@@ -105,9 +111,26 @@ def _execute(spec, ses):
         coll = pool[t]
         d = det.get(str(t), {})
         ref_obs = None
-        for stage in STAGES:
+        for stage in STAGES + ("nested",):
             try:
-                e = optimize_until(coll.expr, stage)
+                if stage == "nested":
+                    # an already optimized (fused) plan is taken up again, as ``df.optimize().map_partitions(f)`` does:
+                    # the new group contains the old one, with all of its external inputs
+                    c2 = new_collection(optimize_until(coll.expr, "fused"))
+                    if not isinstance(c2._meta, (pd.DataFrame, pd.Series)) or c2.npartitions < 1:
+                        continue
+                    # ... next to a second optimized plan over a source of its own, so that the nested groups differ in
+                    # their external inputs
+                    n = c2.npartitions
+                    side = from_pandas(pd.DataFrame({"q__": range(4 * n)}), npartitions=n, sort=False)
+                    side = new_collection(optimize_until((side + 1).expr, "fused"))
+                    if side.npartitions != n:
+                        continue
+                    e = c2.map_partitions(_first_of, side, align_dataframes=False, meta=c2._meta).optimize(fuse=True).expr
+                    counters["nested_fused"] = counters.get("nested_fused", 0) + sum(
+                        1 for x in e.walk() if isinstance(x, Fused) and any(isinstance(y, Fused) for y in x.exprs))
+                else:
+                    e = optimize_until(coll.expr, stage)
                 lowered = e.lower_completely()
             except Exception:
                 counters["stage_errors"] += 1
